@@ -495,6 +495,7 @@ class Enc:
         self.rng, self.style = rng, style
         self.allow_indexed = allow_indexed
         self.allow_ndnumpy = allow_ndnumpy
+        self.ndnumpy_p = 0.4
 
     LAST = None      # (values, T, layout) of the most recent top-level encode (used by the metamorphic C02 family)
     _depth = 0
@@ -599,7 +600,7 @@ class Enc:
             if k == "regular":
                 size = T[2]
                 flat = [x for v in values for x in v]
-                if rnd and self.allow_ndnumpy and T[1][0] in ("num", "regular") and rng.random() < 0.4:
+                if rnd and self.allow_ndnumpy and T[1][0] in ("num", "regular") and rng.random() < self.ndnumpy_p:
                     # multidimensional NumpyArray when everything below is regular numbers
                     shape, t = [n], T
                     while t[0] == "regular":
